@@ -15,21 +15,26 @@ func (p *Pool) lazyResend() {
 
 	p.sendWg.Add(1)
 	go func() {
-		defer func() {
-			p.lazySendM.Unlock()
-			p.sendWg.Done()
-		}()
+		defer p.sendWg.Done()
 
 		for {
 			p.listM.Lock()
 			n := p.el.PopBack()
-			p.listM.Unlock()
 			if n == nil {
+				// Give up the flusher role while still holding the list lock: a
+				// sender that pushes later finds the role free and starts a new
+				// flusher, instead of relying on one that is about to exit.
+				p.lazySendM.Unlock()
+				p.listM.Unlock()
+
 				return
 			}
+			p.listM.Unlock()
 
 			select {
 			case <-p.ctx.Done():
+				p.lazySendM.Unlock()
+
 				return
 			case p.ch <- n.V():
 				p.pool.Release(n)
